@@ -1014,7 +1014,7 @@ class Host(utils.EventEmitter):
     def on_transport_lost(self):
         # Called by the source when the transport has been lost.
         self.transport_lost = True
-        if self.pending_response:
+        if self.pending_response and not self.pending_response.done():
             self.pending_response.set_exception(TransportLostError('transport lost'))
 
         self._on_connections_lost()
